@@ -241,6 +241,28 @@ fn check_text(s: &str, all_chunkings: bool, rng: &mut Rng, out: &mut CaseOut) {
                 }
             }
         }
+        // the diagnostics formatter used for build-time error messages: "<msg> at <path>:<line>:<col>"
+        {
+            let fmt = lrpar::diagnostics::SpannedDiagnosticFormatter::new(s, std::path::Path::new("f.y"));
+            match guarded(|| fmt.file_location_msg("E", Some(Span::new(st, st)))) {
+                Err(p) => out.violate("panic", &["diagnostics"], format!("file_location_msg panicked: {p}"), json!({"text": s, "offset": st})),
+                Ok(txt) => {
+                    out.evals += 1;
+                    out.count("diagnostics_locations_checked", 1);
+                    if !m.cols(st).iter().any(|c| txt == format!("E at f.y:{}:{}", m.line(st), c)) {
+                        out.violate("pp-mismatch", &["diagnostics"], format!("file_location_msg = {txt:?}, expected line {} column {:?}", m.line(st), m.cols(st)), json!({"text": s, "offset": st}));
+                    }
+                }
+            }
+            if i % 3 == 0 {
+                for &en in bs[i..].iter().take(6) {
+                    if let Err(p) = guarded(|| fmt.underline_span_with_text(Span::new(st, en), "msg".to_string(), '^')) {
+                        out.violate("panic", &["diagnostics"], format!("underline_span_with_text({st}..{en}) panicked: {p}"), json!({"text": s, "span": [st, en]}));
+                    }
+                    out.count("diagnostics_underlines_rendered", 1);
+                }
+            }
+        }
         // error pretty-printing of a lexing error placed at `st`
         let e: LexParseError<u32, DefaultLexerTypes<u32>> = LexParseError::LexError(LRLexError::new(Span::new(st, st)));
         match guarded(|| e.pp(&lexer, &|_| None)) {
@@ -263,8 +285,8 @@ fn check_text(s: &str, all_chunkings: bool, rng: &mut Rng, out: &mut CaseOut) {
 fn random_text(rng: &mut Rng) -> String {
     let n = rng.range(5, 60);
     let mut s = String::new();
-    let pool = ["a", "bc", "é", "♠", "\n", "\r\n", "\r", " ", "\n\n", "x", "𝄞"];
-    let w = [6, 4, 3, 2, 6, 4, 1, 4, 2, 5, 1];
+    let pool = ["a", "bc", "é", "♠", "\n", "\r\n", "\r", " ", "\n\n", "x", "𝄞", "日本", "\u{200b}", "e\u{301}"];
+    let w = [6, 4, 3, 2, 6, 4, 1, 4, 2, 5, 1, 3, 2, 2];
     for _ in 0..n {
         s.push_str(pool[rng.weighted(&w)]);
     }
@@ -291,7 +313,7 @@ impl Check for C19 {
         tier.sz(500, 20000)
     }
     fn required_counters(&self, _tier: Tier) -> Vec<&'static str> {
-        vec!["spans_ending_at_line_start", "spans_ending_at_text_end", "empty_spans", "multi_line_spans", "crlf_columns", "pp_checked"]
+        vec!["spans_ending_at_line_start", "spans_ending_at_text_end", "empty_spans", "multi_line_spans", "crlf_columns", "pp_checked", "diagnostics_locations_checked"]
     }
     fn extra_coverage(&self, tier: Tier, c: &BTreeMap<String, u64>) -> Map<String, Value> {
         let mut m = Map::new();
